@@ -313,8 +313,10 @@ class Check(object):
       "known_findings": [k[0] for k in self.known],
       "violation_list": [{k: v[k] for k in ("kind", "signature", "replay", "count")} for v in self.violations],
     }
-    os.makedirs(os.path.join(VERIF, "evidence"), exist_ok=True)
-    with open(os.path.join(VERIF, "evidence", self.pid + ".json"), "w") as f:
+    # runs against a scratch copy of the repo (GRIST_REPO, seeded-change testing) may send their evidence elsewhere
+    ev_dir = os.environ.get("VERIF_EVIDENCE_DIR") or os.path.join(VERIF, "evidence")
+    os.makedirs(ev_dir, exist_ok=True)
+    with open(os.path.join(ev_dir, self.pid + ".json"), "w") as f:
       json.dump(ev, f, indent=1, default=str)
     for sig, what in self.known:
       print("KNOWN-FINDING: property=%s %s" % (self.pid, what))
@@ -328,7 +330,7 @@ class Check(object):
     if self.violations:
       # evidence must reflect final count
       ev["violations"] = len(self.violations)
-      with open(os.path.join(VERIF, "evidence", self.pid + ".json"), "w") as f:
+      with open(os.path.join(ev_dir, self.pid + ".json"), "w") as f:
         json.dump(ev, f, indent=1, default=str)
       return 1
     print("OK property=%s tier=%s seed=%s obligations=%d/%d evaluations=%d nontrivial=%d wall=%.1fs" % (
